@@ -46,7 +46,7 @@ def unit_id(unit_type, district, county, k):
     return f"{district}_{county}_{k}"
 
 
-def gen_election(rng, n_states=None, n_units=None, office=None, unit_type=None, with_district=None):
+def gen_election(rng, n_states=None, n_units=None, office=None, unit_type=None, with_district=None, tossup=False):
     """baseline rows only"""
     if office is None:
         office = rng.choice(["S", "P", "H"]) if with_district is None else ("H" if with_district else rng.choice(["S", "P"]))
@@ -64,7 +64,7 @@ def gen_election(rng, n_states=None, n_units=None, office=None, unit_type=None, 
         counties = [f"{si + 1}{c:02d}" for c in range(1, n_count + 1)]
         cclass = {c: rng.choice(CLASSES) for c in counties}
         dists = rng.sample(DISTRICT_POOL, rng.randint(2, 3)) if district else [None]
-        swing_state = rng.uniform(-0.1, 0.1)
+        swing_state = rng.uniform(-0.1, 0.1) if not tossup else rng.uniform(-0.015, 0.015)      # tossup: every contest is close
         k = 0
         attempts = 0
         while k < per_state and attempts < per_state * 20:
@@ -129,7 +129,7 @@ def live_row(rng, b, pev, swing=0.0, tf=None, noise=0.05):
     }
 
 
-def gen_feed(rng, case, frac_reporting=None, threshold=100, special=True, n_unexpected=None, allow_unknown_state=True, nan_rows=False):
+def gen_feed(rng, case, frac_reporting=None, threshold=100, special=True, n_unexpected=None, allow_unknown_state=True, nan_rows=False, tossup=False):
     """Adds feed rows (and possibly tweaks baseline rows: zero baseline) for a case.
 
     returns list of feed rows; annotates case['notes'] with the intended role of special units.
@@ -137,7 +137,7 @@ def gen_feed(rng, case, frac_reporting=None, threshold=100, special=True, n_unex
     base = case["baseline"]
     feed = []
     notes = {}
-    swing = rng.uniform(-0.08, 0.08)
+    swing = rng.uniform(-0.08, 0.08) if not tossup else rng.uniform(-0.01, 0.01)
     if frac_reporting is None:
         frac_reporting = rng.choice([0.4, 0.5, 0.7, 0.7, 0.9, 1.0])
     idx = list(range(len(base)))
@@ -335,7 +335,7 @@ def gen_params(rng, case, pi_method=None, estimands=None):
 
 
 def gen_case(rng, pi_method=None, threshold=None, **kw):
-    case = gen_election(rng, **{k: v for k, v in kw.items() if k in ("n_states", "n_units", "office", "unit_type", "with_district")})
+    case = gen_election(rng, **{k: v for k, v in kw.items() if k in ("n_states", "n_units", "office", "unit_type", "with_district", "tossup")})
     params = gen_params(rng, case, pi_method=pi_method, estimands=kw.get("estimands"))
     if kw.get("aggregates") is not None:
         params["aggregates"] = list(kw["aggregates"])
@@ -359,7 +359,7 @@ def gen_case(rng, pi_method=None, threshold=None, **kw):
         if case["office"] in ("H", "Y", "Z") and "district" not in aggs_:
             n_unx = 0
     case["feed"] = gen_feed(rng, case, frac_reporting=kw.get("frac_reporting"), threshold=thr,
-                            special=kw.get("special", True), n_unexpected=n_unx, nan_rows=kw.get("nan_rows", False))
+                            special=kw.get("special", True), n_unexpected=n_unx, nan_rows=kw.get("nan_rows", False), tossup=kw.get("tossup", False))
     # blocklists
     mp = params["model_parameters"]
     if kw.get("blocklist", True) and rng.random() < 0.4:
